@@ -5,6 +5,7 @@ package engines
 import (
 	"fmt"
 	"strconv"
+	"sync"
 	"time"
 
 	"github.com/boz/kcache/nsname"
@@ -326,6 +327,96 @@ func e4WatchVersions(r *Res, srv *kit.Server) {
 	}
 }
 
+// e4RaceCase: events of the OLD watch session that are older than a list are
+// still buffered when that list's result is handled (the controller is slow
+// at 'update event' while a burst of delete+re-create arrives just before the
+// list's snapshot).  Right after the list has been consumed, with the server
+// quiet, the cache must equal the list: nothing older may be applied on top.
+func e4RaceCase(seed uint64, n int) Case {
+	id := fmt.Sprintf("E4/relist-race/%d/%d", seed, n)
+	return Case{ID: id, Desc: map[string]interface{}{"seed": seed, "n": n, "mode": "relist-race"}, Bubble: true, Run: func(r *Res) {
+		rng := kit.NewRng(kit.Mix(seed, uint64(n)+4400))
+		P := 10 * time.Second
+		slow := []string{"controller|update event", "controller|distribute events", "watcher|session event"}[rng.Intn(3)]
+		core := kit.NewCore(&kit.Plan{Seed: rng.U64(), PYield: 100, Targets: map[string]time.Duration{slow: time.Duration(200+rng.Intn(400)) * time.Microsecond}})
+		srv := kit.NewPodServer(core)
+		u := smallUniverse()
+		for i := 0; i < 5; i++ {
+			u.mutate(rng, srv)
+		}
+		lat := time.Duration(50+rng.Intn(300)) * time.Microsecond
+		srv.ListPlan = func(i int) kit.ListFault { return kit.ListFault{Latency: lat, SnapshotLate: true} }
+		var mu sync.Mutex
+		burstAt := map[int]int{}
+		srv.OnList = func(i int) {
+			if i < 2 {
+				return
+			}
+			// a burst of delete + re-create (and plain updates) BEFORE the snapshot
+			mu.Lock()
+			defer mu.Unlock()
+			objs := srv.Objects()
+			k := 0
+			for _, o := range objs {
+				if k >= 3 {
+					break
+				}
+				srv.Delete(o.GetNamespace(), o.GetName())
+				srv.Put(kit.Pod(o.GetNamespace(), o.GetName(), "", o.GetLabels()))
+				k++
+			}
+			burstAt[i] = k
+		}
+		fam := filterFamily()
+		F := fam[[]int{0, 0, 2, 5}[rng.Intn(4)]]
+		g, err := newCtlRig(core, srv, P, F)
+		if err != nil {
+			r.Inc(err.Error())
+			return
+		}
+		sub, _ := g.ctl.Subscribe()
+		mir := startMirror("root-subscriber", sub.Events(), sub.Ready(), sub.Cache())
+		if !waitCh(g.ctl.Ready(), virtBound) {
+			r.V("C03", "never-ready", "controller not ready")
+			return
+		}
+		g.barrier()
+		s0, _ := cacheSnap(g.ctl.Cache())
+		mir.seed(s0)
+		for round := 0; round < 4; round++ {
+			have := len(srv.Lists())
+			for i := 0; i < 400 && len(srv.Lists()) == have; i++ {
+				time.Sleep(P / 20)
+			}
+			if len(srv.Lists()) == have {
+				r.V("C03", "relist-stopped", "no list within 20 periods")
+				break
+			}
+			time.Sleep(100 * time.Millisecond) // far below the period: no further relist yet
+			g.barrier()
+			want := F.Accepted(srv.Objects())
+			got, _ := cacheSnap(g.ctl.Cache())
+			r.Add("post-list-checks", 1)
+			if !got.Equal(want) {
+				r.V("C03", "stale-event-applied-after-list", "round %d: 100ms after list #%d was consumed (server quiet since before its snapshot) the cache is %v, the list's accepted objects are %v: an older watch event was applied on top of the list; last events at the subscriber: %s", round, len(srv.Lists()), got, want, tailEvents(mir.events(), 8))
+				break
+			}
+			if core.Overruns() == 0 {
+				if ms := mir.snap(); !ms.Equal(got) {
+					r.V("C03", "mirror-diverged", "round %d: subscriber mirror %v != cache %v", round, ms, got)
+					break
+				}
+			}
+			mir.report(r, "C03")
+			mir.reportCacheClause(r)
+		}
+		g.shutdown(r, "C12")
+		r.Key(id)
+		r.Set("signatures", strconv.FormatUint(core.Signature(), 16))
+		r.Sample = map[string]interface{}{"mode": "relist-race", "slow_point": slow, "filter": F.String(), "lists": len(srv.Lists())}
+	}}
+}
+
 func init() {
 	register("E4", func(tier string, seed uint64) []Case {
 		var cases []Case
@@ -338,6 +429,9 @@ func init() {
 			cases = append(cases, e4Case(seed, i, "watch-dead-block", false))
 			cases = append(cases, e4Case(seed, i, "watch-dead-error", false))
 			cases = append(cases, e4Case(seed, i, "watch-silent", false))
+		}
+		for i := 0; i < tierPick(tier, 60, 1500); i++ {
+			cases = append(cases, e4RaceCase(seed, i))
 		}
 		return cases
 	})
